@@ -21,6 +21,7 @@ def run(rep: Report, repo: Repo):
     mod = repo.mod('sdf')
     text, gnode = grammar.extract_grammar(mod)
     G = grammar.Grammar(text, 'sdf')
+    grammar.fresh_parser_rule(rep, 'C14.fresh', mod, 'SdfTransformer')
     rep.rule('C14.grammar', 'SDF grammar <-> SdfTransformer: arity, kind, exhaustiveness, no dead callback')
     methods, handlers, n = grammar.check_agreement(rep, 'C14.grammar', mod, G, 'SdfTransformer', consumed_as_tree=('delay',))
     rep.floor('SDF callbacks analysed', n, 5)
